@@ -86,6 +86,21 @@ CHECKS["C16"] = dict(
          "Each history ending in a refresh is replayed with real font files; the monitor re-steps the file-system model and checks ScratchExact, RefreshEqScratch, RoundTrip, TornSafe/TornWellFormed at Load, and for every prefix and sampled byte flips of a serialized index: no panic, prefix decodes to error or the same index, and a scan after any successful read equals the scratch scan.",
     note="Trusts os.Chtimes as the clock, sha1 digests of serialized footprints, TLC. Symlinks/permissions and concurrent writers are not modelled. Byte flips are sampled in the quick tier (every third byte), all bytes in thorough.")
 
+CHECKS["C01"] = dict(
+    engine="shape",
+    technique="TLA+ call/return laws (ShapeAPI.tla) validated by TLC on recorded Shape calls over corpus fonts x inputs (shaping API and engine API), plus a TLA+ transcription of countClusters model-checked against the same laws",
+    category="model_checking", design_ref="DESIGN.md §5 C01",
+    text="Every recorded call (under recover and a watchdog) is an event; TLC evaluates Returned, Range, InRange, Monotone, ClusterUniform, CountsSum, Budget (and PosSync / Monotone per cluster level at the engine API). "
+         "Inputs: sampled corpus faces (all in thorough) x multi-script and own-cmap texts x 7 directions x scripts x sizes x run bounds incl. degenerate ones. The cluster-count algorithm is additionally model-checked exhaustively for <= 5 glyphs over <= 5 runes.",
+    note="Trusts recover()/watchdog as the totality observation, TLC. Font x text space is sampled (seeded), not exhausted; an implementation model of the HarfBuzz buffer operations is not part of this check.")
+CHECKS["C12"] = dict(
+    engine="shape",
+    technique="TLA+ geometric identities (Geometry.tla: advance sums, cross-axis zero, enclosing and tight bounds, line bounds = font extents, sideways = 90 degree rotation of the horizontal twin, word/letter spacing deltas) validated by TLC on recorded real shapings and on synthetic spacing scenarios",
+    category="model_checking", design_ref="DESIGN.md §5 C12",
+    text="For every recorded Output TLC evaluates AdvSum, CrossZero, BoundsEnclose/BoundsTight, LineBounds and, for sideways runs, Rotation against the horizontal shaping of the same input (stated as the map (x,y)->(y,-x) on advance vector and ink box). "
+         "Spacing: every cluster partition of 6 short texts x 1-2 glyphs per cluster x both progressions and axes x 6 spacing values x start/end flags through the real AddWordSpacing/AddLetterSpacing, compared with the eligibility rules written in TLA+.",
+    note="Trusts TLC and the harness's logging of glyph fields. Integer 26.6 arithmetic only. Fonts x texts sampled by seed.")
+
 NOT_YET = {}
 NA = {
  "C05": "defined as agreement with the reference C HarfBuzz; no reference shaper (uharfbuzz/hb-shape) exists in this sealed sandbox and re-specifying HarfBuzz in TLA+ would make the spec the reference (DESIGN §6)",
